@@ -58,10 +58,13 @@ def api_call(ex, st, args, ins, fn):
             if not isinstance(n, int):
                 n = ex.concretize(st, n, 64, what='verifNondetBytes length')
             elems = []
-            for _ in range(n):
-                e = z3.BitVec(ex.fresh_name('nd'), 8)
-                st.nondets.append(('uint8', e))
-                elems.append(e)
+            if n > 0:
+                wide = z3.BitVec(ex.fresh_name('ndB'), 8 * n)
+                for i in range(n):
+                    e = z3.Extract(8 * (n - i) - 1, 8 * (n - i) - 8, wide) if n > 1 else wide
+                    ex.blobs[e.get_id()] = (wide.get_id(), i)
+                    st.nondets.append(('uint8', e))
+                    elems.append(e)
             c = ex.new_cell(st, tuple(elems))
             return Slice(Ptr(c, ()), 0, n, n)
         if what == 'Big':
@@ -115,7 +118,8 @@ def api_call(ex, st, args, ins, fn):
             rs = z3.BoolSort()
         else:
             rs = z3.BitVecSort(64)
-        r = uf_apply(ex, st, name, terms, sig, rs)
+        packed = pack_terms(ex, terms)
+        r = uf_apply(ex, st, name, packed, sig, rs)
         st.ufapps.append((name, tuple(terms), (r,)))
         return r
     if short in ('verifUFBytes', 'verifHashBytes'):
@@ -123,22 +127,34 @@ def api_call(ex, st, args, ins, fn):
         n = args[1]
         terms, sig = flatten_args(ex, st, args[2])
         rs = z3.BitVecSort(8 * n)
-        r = uf_apply(ex, st, name, terms, sig, rs)
+        packed = pack_terms(ex, terms)
+        r = uf_apply(ex, st, name, packed, sig, rs)
         if short == 'verifHashBytes':
+            # collision-freeness contract, linear encoding: an inverse function per argument
+            # (inv_k(F(x)) = x_k) and a shape tag shared by all shapes of this name
             key = 'hash:' + name
-            prev = st.ghost.get(key, ())
-            for (psig, pterms, pr) in prev:
-                if psig == sig:
-                    if all(a is b for a, b in zip(pterms, terms)):
-                        continue
-                    same = z3.And([zterm(a) == zterm(b) for a, b in zip(pterms, terms)]) if terms else z3.BoolVal(True)
-                    c = z3.Implies(pr == r, same)
-                else:
-                    c = pr != r
-                ex.solver.add(c)
-                st.pc.append(c)
-            st.ghost[key] = prev + ((sig, tuple(terms), r),)
+            seen = st.ghost.get(key, frozenset())
+            rid = r.get_id()
+            if rid not in seen:
+                st.ghost[key] = seen | {rid}
+                sigs = ex.ufs.setdefault(('sigs', name, 8 * n), {})
+                sid = sigs.setdefault(sig, len(sigs))
+                tagf = ex.ufs.get(('tag', name, 8 * n))
+                if tagf is None:
+                    tagf = ex.ufs[('tag', name, 8 * n)] = z3.Function('tag_%s_%d' % (name, 8 * n), rs, z3.IntSort())
+                cs = [tagf(r) == sid]
+                for k, a_ in enumerate(packed):
+                    ik = ('inv', name, sig, tuple((t.size() if z3.is_bv(t) else 'I') for t in packed), 8 * n, k)
+                    invf = ex.ufs.get(ik)
+                    if invf is None:
+                        invf = ex.ufs[ik] = z3.Function('inv_%s_%d_%d' % (name, len(ex.ufs), k), rs, a_.sort())
+                    cs.append(invf(r) == a_)
+                for c in cs:
+                    ex.solver.add(c)
+                    st.pc.append(c)
         elems = tuple(z3.Extract(8 * (n - i) - 1, 8 * (n - i) - 8, r) for i in range(n))
+        for i, e in enumerate(elems):
+            ex.blobs[e.get_id()] = (r.get_id(), i)
         st.ufapps.append((name, tuple(terms), elems))
         c = ex.new_cell(st, elems)
         return Slice(Ptr(c, ()), 0, n, n)
@@ -158,18 +174,57 @@ def zterm(a):
     return a
 
 
+def pack_terms(ex, terms):
+    """group the flattened argument terms: a run of bytes cut from the same wider term
+    becomes that term (one argument), a run of constants becomes one constant, every
+    other term is its own argument. Keeps hash-of-hash reasoning at the term level."""
+    out = []
+    run = []       # current run of byte terms
+    run_key = None
+
+    def flush():
+        nonlocal run, run_key
+        if run:
+            if len(run) == 1:
+                out.append(run[0])
+            else:
+                out.append(z3.simplify(z3.Concat(*run)))
+        run, run_key = [], None
+
+    for t in terms:
+        if isinstance(t, bool):
+            t = z3.BitVecVal(1 if t else 0, 1)
+        elif z3.is_bool(t):
+            t = z3.If(t, z3.BitVecVal(1, 1), z3.BitVecVal(0, 1))
+        if z3.is_int(t):
+            flush()
+            out.append(t)
+            continue
+        if z3.is_bv_value(t):
+            key = 'const'
+        else:
+            info = ex.blobs.get(t.get_id())
+            key = ('blob', info[0]) if info else None
+        if key is None:
+            flush()
+            out.append(t)
+            continue
+        if key != run_key:
+            flush()
+            run_key = key
+        run.append(t)
+    flush()
+    return out
+
+
 def uf_apply(ex, st, name, terms, sig, rsort):
-    key = (name, sig, str(rsort))
+    key = (name, sig, tuple((t.size() if z3.is_bv(t) else 'I') for t in terms), str(rsort))
     F = ex.ufs.get(key)
     if F is None:
-        sorts = []
-        for s in sig:
-            if s == 'b':
-                sorts.append(z3.BoolSort())
-            elif s == 'I':
-                sorts.append(z3.IntSort())
-            else:
-                sorts.append(z3.BitVecSort(s))
+        sorts = [t.sort() for t in terms]
+        if False:
+            for s in sig:
+                pass
         fname = 'uf_%s_%d' % (name, len(ex.ufs))
         if sorts:
             F = z3.Function(fname, *(sorts + [rsort]))
@@ -178,7 +233,7 @@ def uf_apply(ex, st, name, terms, sig, rsort):
         ex.ufs[key] = F
     if not terms:
         return F
-    return F(*[zterm(t) if not isinstance(t, int) or isinstance(t, bool) else t for t in terms])
+    return F(*terms)
 
 
 def flatten_args(ex, st, sl):
